@@ -131,7 +131,7 @@ fn gen_c01(ctx: &mut Ctx) {
     for len in [0usize, 1, 2, 16, 254, 255, 256, 257, 300, 511, 512, 767, 1000, 4351, 65535, 65536, 65537, 65791, 65792, 100000, 131072, 131327] {
         let line = format!("NEW {}", len);
         let res = ctx.case(line.clone(), true, "data-constructor");
-        let ok = if len <= 255 { res == "OK" } else { res == format!("ER TOOLONG {}", len) };
+        let ok = if len <= 255 { res == "OK" } else { res == "ER TOOLONG" };
         ctx.monitor(ok, "C01-no-truncation", &line, &res);
     }
 }
@@ -895,7 +895,7 @@ fn gen_c07(ctx: &mut Ctx) {
             let ok = if len == total {
                 res == format!("OK {}", hex_of_bytes(&pb_bytes(len as usize, seed as usize)))
             } else {
-                res == format!("ER LEN {} {} {} {}", w, h, total, len)
+                res == "ER LEN"
             };
             ctx.monitor(ok, "C07-from-bytes-iff-length", &line, &res);
         }
@@ -1257,7 +1257,7 @@ fn gen_c19(ctx: &mut Ctx) {
             }
             let line = format!("ST {}", hex_of_bytes(&b));
             let res = ctx.case(line.clone(), true, "all-lengths");
-            let ok = if len != 16 { res == format!("ER LEN 16 {}", len) } else { res.starts_with("OK ") || res == "ER UNKNOWN" };
+            let ok = if len != 16 { res == "ER LEN" } else { res.starts_with("OK ") || res == "ER UNKNOWN" };
             ctx.monitor(ok, "C19-length", &line, &res);
         }
     }
